@@ -143,6 +143,8 @@ def run(tier):
     # errors escaping coroutine.wrap functions, caught in the resumer (main thread or a coroutine)
     for rk, res, cat in itertools.product(["error", "errtab", "fault", "gerr", "gpanic", "after-yield"], ["main", "coroutine"], ["pcall", "xpcall"]):
         fams.append(("wraperr",) + gen_prot.wraperr_program(rk, res, cat) + (None,))
+    for level, where, kind in itertools.product([None, 1, 2, 3, 4], ["wrap", "resume", "pcall", "xpcall", "gcall"], ["str", "tab", "nil"]):
+        fams.append(("bottomtail",) + gen_prot.bottom_tail_program(level, where, kind) + (None,))
     # capturing functions retried after a failed protected call (the failed attempt's upvalues must be gone)
     import gen_clos
     for p, root in gen_clos.retry_cases():
